@@ -92,7 +92,7 @@ def gen_constants():
         return ["gen_constants.py failed: " + (err or out)[-400:]]
 
 
-COQ_DIRS = ["Model", "Gen", "Proofs", "Legacy", "Props", "Extract"]
+COQ_DIRS = ["Model", "Gen", "Proofs", "Legacy", "Props", "Extract"]   # Gen/Generated.v is regenerated; Gen/Facts*.v are its side lemmas
 
 
 def gen_extract_v():
